@@ -163,7 +163,19 @@ template<class V> std::string seq_probe(const std::string& name, const V& v)
          }
          return std::string("ok");
       });
+      // the same walk backwards, with prefix and with postfix decrement, and forwards with postfix increment
+      std::size_t back = 0, backp = 0, fwdp = 0;
+      bool agree2 = true;
+      auto walk2 = guarded([&] {
+         for (auto it = v.end(); it != v.begin();) { --it; ++back; if (back <= n and n - back < 200) agree2 = agree2 and (&*it == &*v.position(n - back)); if (back > n + 4) break; }
+         for (auto it = v.end(); it != v.begin();) { auto old = it--; if (old == it) break; ++backp; if (backp <= n and n - backp < 200) agree2 = agree2 and (&*it == &*v.position(n - backp)); if (backp > n + 4) break; }
+         for (auto it = v.begin(); it != v.end();) { auto old = it++; if (fwdp < n and fwdp < 200) agree2 = agree2 and (&*old == &*v.position(fwdp)); ++fwdp; if (fwdp > n + 4) break; }
+         return std::string("ok");
+      });
       s += "n" + std::to_string(n) + (walk == "ok" ? "" : ":WALK-" + walk) + (count == n or walk != "ok" ? "" : ":COUNT" + std::to_string(count)) + (agree ? "" : ":DISAGREE");
+      if (walk2 != "ok") s += ":WALK-" + walk2;
+      else if (back != n or backp != n or fwdp != n) s += ":COUNT" + std::to_string(back) + "/" + std::to_string(backp) + "/" + std::to_string(fwdp);
+      if (not agree2) s += ":DISAGREE";
       const std::size_t idx[] = { n, n + 1, n + 1000000, std::size_t(-1) / 2, std::size_t(-1) };
       for (auto i : idx) s += ":" + guarded([&] { (void) &*v.position(i); return std::string("ACCEPTED"); });
       return s + " ";
